@@ -1729,6 +1729,9 @@ impl Bgi {
     }
 
     pub fn set_viewport(&mut self, x0: i32, y0: i32, x1: i32, y1: i32) {
+        // the drawing primitives index the canvas for every point inside the viewport: keep it inside the canvas
+        let (x0, x1) = (x0.min(x1).clamp(0, self.window.width), x0.max(x1).clamp(0, self.window.width));
+        let (y0, y1) = (y0.min(y1).clamp(0, self.window.height), y0.max(y1).clamp(0, self.window.height));
         self.viewport = Rectangle::from(x0, y0, x1 - x0, y1 - y0);
     }
     pub fn clear_viewport(&mut self) {
